@@ -46,6 +46,25 @@ func c15DecodeUtp(p *portalwire.PortalProtocol, n *enode.Node, b []byte) (d []by
 	return p.VerifDecodeUtpContent(n, append(make([]byte, 0, len(b)), b...))
 }
 
+// the stream returned by a join is a value: it must still be what it was after later joins (the offer path joins, dials for
+// up to 15 s and only then writes)
+type c15Retain struct {
+	live, copy []byte
+	n, changed int
+}
+
+func (t *c15Retain) note(enc []byte) {
+	if t.live != nil {
+		t.n++
+		if !bytes.Equal(t.live, t.copy) {
+			t.changed++
+		}
+	}
+	t.live, t.copy = enc, append([]byte{}, enc...)
+}
+
+var c15RetContents, c15RetUtp c15Retain
+
 func init() { runners["C15"] = runC15 }
 
 var c15Lens = []int{0, 0, 1, 2, 5, 31, 126, 127, 128, 129, 255, 256, 300, 1000, 16382, 16383, 16384, 16385, 20000}
@@ -178,6 +197,7 @@ func runC15(o *Out, r *rand.Rand, thorough bool, _ []string) {
 			raw[j] = ts[j].Bytes()
 		}
 		enc := portalwire.VerifEncodeContents(raw)
+		c15RetContents.note(enc)
 		o.Case("enc "+termsString(ts), canon(enc))
 		back, err := c15DecodeContents(enc)
 		same := err == nil && len(back) == len(raw)
@@ -292,6 +312,7 @@ func runC15(o *Out, r *rand.Rand, thorough bool, _ []string) {
 			o.Case("utpenc "+strconv.Itoa(v)+" "+t.String(), "err")
 			continue
 		}
+		c15RetUtp.note(enc)
 		o.Case("utpenc "+strconv.Itoa(v)+" "+t.String(), "ok "+canon(enc))
 		dec, err := c15DecodeUtp(p, nodes[v], enc)
 		o.Case("utprt "+strconv.Itoa(v)+" "+t.String(), map[bool]string{true: "same", false: "diff"}[err == nil && bytes.Equal(dec, data)])
@@ -321,4 +342,8 @@ func runC15(o *Out, r *rand.Rand, thorough bool, _ []string) {
 			o.Case("utpdec "+strconv.Itoa(v)+" "+bytesTerm(m), "ok "+canon(d))
 		}
 	}
+	c15RetContents.note(nil)
+	c15RetUtp.note(nil)
+	o.Case(fmt.Sprintf("retainenc contents n=%d", c15RetContents.n), fmt.Sprintf("changed=%d", c15RetContents.changed))
+	o.Case(fmt.Sprintf("retainenc utp n=%d", c15RetUtp.n), fmt.Sprintf("changed=%d", c15RetUtp.changed))
 }
